@@ -240,7 +240,29 @@ func (v *Verifier) callMods(c *ssa.CallCommon, out map[string]bool) {
 		return
 	}
 	if f := c.StaticCallee(); f != nil {
+		hadStar := out["*"]
 		addFn(f)
+		// "*" in the callee's set stands for its `callsback` parameters: when each of them is bound
+		// here to a closure (or nil), the closures' own sets (added below) are the effect
+		if !hadStar && out["*"] {
+			if con := v.contractOf(f); con != nil && len(con.Callsback) > 0 {
+				known := true
+				for ai, a := range c.Args {
+					if ai < len(f.Params) && con.Callsback[f.Params[ai].Name()] {
+						if asClosure(a) == nil {
+							if k, isConst := a.(*ssa.Const); !isConst || k.Value != nil {
+								if fn, isFn := a.(*ssa.Function); !isFn || !v.inModule(fn) {
+									known = false
+								}
+							}
+						}
+					}
+				}
+				if known {
+					delete(out, "*")
+				}
+			}
+		}
 	}
 	// closures handed to the callee (callbacks run during the call)
 	for _, a := range c.Args {
